@@ -118,8 +118,10 @@ class Mon:
         except Exception as ex:
             rec.violation("decode-raises", "decode_number(%s) raised %r" % (eb.hex(), ex), {"n": n, "enc": eb})
             return eb
-        if d != n:
-            rec.violation("roundtrip", "decode_number(encode_number(%d)) = %d" % (n, d), {"n": n, "enc": eb, "dec": d})
+        if d != n or type(d) is not int:
+            rec.violation("roundtrip", "decode_number(encode_number(%d)) = %r" % (n, d), {"n": n, "enc": eb, "dec": d})
+        if not isinstance(e, bytes):
+            rec.violation("result-type", "encode_number(%d) returned a %s, not bytes" % (n, type(e).__name__), {"n": n})
         k = _width(n)
         pre = eb[:k]
         try:
@@ -138,7 +140,7 @@ class Mon:
         except Exception as ex:
             rec.violation("decode-raises", "decode_number(%s) raised %r" % (bytes(b).hex(), ex), {"bytes": bytes(b)})
             return
-        if got != want:
+        if got != want or type(got) is not int:
             rec.violation("decode-formula", "decode_number(%s) = %r, positional formula gives %d" % (bytes(b).hex(), got, want), {"bytes": bytes(b), "got": got, "want": want})
 
 
